@@ -51,7 +51,7 @@ int   slu_default_sp_ienv(int);
 extern volatile long *vf_progress; /* shared page: [0]=current case index, [1]=phase */
 
 /* --------------------------------------------------------------- dense model */
-#define NMAX 10
+#define NMAX 16
 typedef long double _Complex xc;
 typedef long double xr;
 typedef struct { int m, n; xc a[NMAX*NMAX]; unsigned char nz[NMAX*NMAX]; } dmat;
@@ -104,6 +104,7 @@ const vf_type *vf_T(int id);
 typedef struct {
     int prop, fam, type, m, n;
     uint64_t pat;
+    int gen;                 /* 0: pat is a bit mask (bit i*n+j); 1: structured base (pat&255) with one deviation (pat>>8); 2: pseudo-random pattern with seed pat */
     int vals, colperm, permid, sym, stor, nrhs, ldbx, trans, equil, refine, rhs, fillb;
     int cond, growth, fact, lworkmode, align, fest, k, aux, aux2, aux3;
     long lwork;
@@ -119,6 +120,9 @@ int  vcase_parse(vcase *c, const char *line);
 /* --------------------------------------------------------- enumeration lists */
 extern const int vf_tunings[][8];  extern const int vf_ntunings;
 int  pat_struct_rank(int m, int n, uint64_t pat);
+extern int vf_pat_gen;                              /* pattern generator of the running case (set by the worker from vcase.gen) */
+int  vf_pat_bit(int m, int n, uint64_t pat, int i, int j);
+int  base_has(int n, int which, int i, int j);
 uint64_t base_pattern(int n, int which);        /* BASE(n) family */
 int  n_base_patterns(void);
 uint64_t dev1_pattern(int n, uint64_t base, int k); /* k in [0, n*n]: k==0 base, else flip bit k-1 */
